@@ -350,9 +350,22 @@ func runC11(c *core.Ctx) {
 		type where struct{ eff, next int64 }
 		got := make(chan where, 1)
 		var effG int64
-		pv, loc := core.Catch(func() {
-			fpgo.MonadIONewGenerics(func() int { effG = core.Goid(); return 1 }).ObserveOn(&fpgo.Handler).Subscribe(fpgo.Subscription[int]{OnNext: func(int) { got <- where{effG, core.Goid()} }})
-		})
+		var pv any
+		var loc string
+		returned := make(chan struct{})
+		go func() {
+			defer close(returned)
+			pv, loc = core.Catch(func() {
+				fpgo.MonadIONewGenerics(func() int { effG = core.Goid(); return 1 }).ObserveOn(&fpgo.Handler).Subscribe(fpgo.Subscription[int]{OnNext: func(int) { got <- where{effG, core.Goid()} }})
+			})
+		}()
+		if v, dump := core.AwaitOrStuck(returned, 2*time.Second, 60*time.Second, func() int64 { return 0 }); v == "stuck" {
+			c.Violationf("subscribe:never-returns", map[string]any{"handler": "the package-level default Handler, first use in the process", "goroutines": core.RepoGoroutineSummary(dump)}, "Subscribe of a MonadIO observed on the package-level default Handler (fpgo.Handler), as the first library call of the process, never returns")
+			return
+		} else if v != "done" {
+			c.Inconclusive("default handler probe: watchdog")
+			return
+		}
 		if pv != nil {
 			c.Violationf("default-handler:panic", nil, "ObserveOn(&fpgo.Handler) panics: %v at %s", pv, loc)
 		} else {
@@ -408,8 +421,17 @@ func runC11(c *core.Ctx) {
 		progs = append(progs, p)
 	}
 	// handlers are shared: run sequentially (the property is about compositions, not schedules)
-	for _, p := range progs {
-		e.checkProgram(p)
+	// (each program under the stuck detector: an Eval / Subscribe that waits for itself never returns)
+	for pi, p := range progs {
+		done := make(chan struct{})
+		go func() { defer close(done); e.checkProgram(p) }()
+		if v, dump := core.AwaitOrStuck(done, 2*time.Second, 120*time.Second, func() int64 { return int64(pi) }); v == "stuck" {
+			e.viol("eval-or-subscribe:never-returns", p, "evaluating / subscribing the program never returns and nothing can make progress: %v", core.RepoGoroutineSummary(dump))
+			return
+		} else if v != "done" {
+			c.Inconclusive("watchdog while checking " + p.String())
+			return
+		}
 	}
 	// handlers are bound at Subscribe time: re-configuring the same MonadIO (SubscribeOn / ObserveOn) while an
 	// earlier subscription's effect is still in flight must not move that subscription's OnNext
